@@ -20,6 +20,12 @@ def step (d : DSt) : List String → DSt × List String
   | "block" :: rest =>
     let s' := Mint.block d.ratio d.genesis (kvInt rest "time") (kvInt rest "fired" = 1) d.st
     ({ d with st := s' }, [showSt s'])
+  | ["setratio", r] =>
+    match r.toInt? with
+    | some v =>
+      let (nr, ok) := Mint.setRatio d.ratio ⟨v⟩
+      ({ d with ratio := nr }, [if ok then "ok" else "err"])
+    | none => (d, ["bad-op"])
   | _ => (d, ["bad-op"])
 
 def run := runSuite ({} : DSt) step
